@@ -13,6 +13,7 @@ use simcore::Sim;
 use std::collections::HashMap;
 use std::pin::Pin;
 use std::sync::{Arc, Mutex};
+use std::future::Future;
 use std::task::{Context, Poll};
 use tokio_stream::Stream;
 use tonic::metadata::MetadataMap;
@@ -65,6 +66,10 @@ pub struct Script {
     /// streaming requests: 0 = read everything first, 1 = answer without reading,
     /// 2 = interleave (read one request message between two response messages)
     pub read_mode: u8,
+    /// engine N only: virtual-time latency before the handler answers (u64::MAX = never answers)
+    pub latency_us: u64,
+    /// engine N only: virtual-time gap before each streamed response message
+    pub gap_us: u64,
 }
 
 #[derive(Clone, Debug, Default)]
@@ -74,6 +79,7 @@ pub struct CallLog {
     pub msgs: Vec<Vec<u8>>,
     pub req_error: Option<String>,
     pub req_stream_ended: bool,
+    pub conn_id: Option<usize>,
 }
 
 #[derive(Default)]
@@ -120,6 +126,22 @@ impl Handler {
         }
     }
 
+    async fn latency(&self, s: &Script) {
+        if s.latency_us == u64::MAX {
+            std::future::pending::<()>().await;
+        } else if s.latency_us > 0 {
+            tokio::time::sleep(std::time::Duration::from_micros(s.latency_us)).await;
+        }
+    }
+
+    fn note_conn(&self, id: u64, ext: &http::Extensions) {
+        if let Some(ci) = ext.get::<simnet::SimConnInfo>() {
+            if let Some(l) = self.st.lock().unwrap().logs.get_mut(&id) {
+                l.conn_id = Some(ci.conn_id);
+            }
+        }
+    }
+
     fn note_msg(&self, id: u64, m: Vec<u8>) {
         if let Some(l) = self.st.lock().unwrap().logs.get_mut(&id) {
             l.msgs.push(m);
@@ -151,8 +173,10 @@ impl Handler {
 
     pub async fn unary<M: SimMsg>(&self, method: &'static str, req: Request<M>) -> Result<Response<M>, Status> {
         let (id, s) = self.enter(method, req.metadata())?;
+        self.note_conn(id, req.extensions());
         self.note_msg(id, req.get_ref().canon());
         self.note_req_end(id, None);
+        self.latency(&s).await;
         match &s.end {
             Some(e) => Err(e.build()),
             None => Ok(self.response_head(&s, M::from_payload(s.tag, s.msgs.first().map(|v| &v[..]).unwrap_or(&[])))),
@@ -161,7 +185,9 @@ impl Handler {
 
     pub async fn client_stream<M: SimMsg>(&self, method: &'static str, req: Request<Streaming<M>>) -> Result<Response<M>, Status> {
         let (id, s) = self.enter(method, req.metadata())?;
+        self.note_conn(id, req.extensions());
         let mut stream = req.into_inner();
+        self.latency(&s).await;
         if s.read_mode != 1 {
             loop {
                 match stream.message().await {
@@ -185,20 +211,24 @@ impl Handler {
 
     pub async fn server_stream<M: SimMsg>(&self, method: &'static str, req: Request<M>) -> Result<Response<OutStream<M>>, Status> {
         let (id, s) = self.enter(method, req.metadata())?;
+        self.note_conn(id, req.extensions());
         self.note_msg(id, req.get_ref().canon());
         self.note_req_end(id, None);
+        self.latency(&s).await;
         if s.fail_at_call {
             if let Some(e) = &s.end {
                 return Err(e.build());
             }
         }
         let src = SimSource::new(&self.sim, self.items::<M>(&s), s.src_pending);
-        Ok(self.response_head(&s, OutStream { tail: src, req: None, h: self.clone(), id, alternate: false, tail_done: false }))
+        Ok(self.response_head(&s, OutStream { tail: src, req: None, h: self.clone(), id, alternate: false, tail_done: false, gap_us: s.gap_us, sleeping: None, held: None }))
     }
 
     pub async fn bidi<M: SimMsg>(&self, method: &'static str, req: Request<Streaming<M>>) -> Result<Response<OutStream<M>>, Status> {
         let (id, s) = self.enter(method, req.metadata())?;
+        self.note_conn(id, req.extensions());
         let mut stream = req.into_inner();
+        self.latency(&s).await;
         if s.fail_at_call {
             if let Some(e) = &s.end {
                 return Err(e.build());
@@ -223,7 +253,7 @@ impl Handler {
             },
         }
         let src = SimSource::new(&self.sim, self.items::<M>(&s), s.src_pending);
-        Ok(self.response_head(&s, OutStream { tail: src, req: keep, h: self.clone(), id, alternate: false, tail_done: false }))
+        Ok(self.response_head(&s, OutStream { tail: src, req: keep, h: self.clone(), id, alternate: false, tail_done: false, gap_us: s.gap_us, sleeping: None, held: None }))
     }
 }
 
@@ -236,12 +266,27 @@ pub struct OutStream<M: SimMsg> {
     id: u64,
     alternate: bool,
     tail_done: bool,
+    gap_us: u64,
+    sleeping: Option<Pin<Box<tokio::time::Sleep>>>,
+    held: Option<Result<M, Status>>,
 }
 
 impl<M: SimMsg> Stream for OutStream<M> {
     type Item = Result<M, Status>;
     fn poll_next(mut self: Pin<&mut Self>, cx: &mut Context<'_>) -> Poll<Option<Self::Item>> {
         let this = &mut *self;
+        if let Some(sl) = this.sleeping.as_mut() {
+            match sl.as_mut().poll(cx) {
+                Poll::Pending => return Poll::Pending,
+                Poll::Ready(()) => {
+                    this.sleeping = None;
+                    if let Some(x) = this.held.take() {
+                        this.alternate = true;
+                        return Poll::Ready(Some(x));
+                    }
+                }
+            }
+        }
         if this.alternate {
             if let Some(r) = this.req.as_mut() {
                 match Pin::new(r).poll_next(cx) {
@@ -264,6 +309,15 @@ impl<M: SimMsg> Stream for OutStream<M> {
         let t = if this.tail_done { Poll::Ready(None) } else { Pin::new(&mut this.tail).poll_next(cx) };
         match t {
             Poll::Ready(Some(x)) => {
+                if this.gap_us > 0 {
+                    // engine N: a virtual-time gap before each streamed item
+                    let mut sl = Box::pin(tokio::time::sleep(std::time::Duration::from_micros(this.gap_us)));
+                    if sl.as_mut().poll(cx).is_pending() {
+                        this.held = Some(x);
+                        this.sleeping = Some(sl);
+                        return Poll::Pending;
+                    }
+                }
                 this.alternate = true;
                 Poll::Ready(Some(x))
             }
